@@ -86,6 +86,27 @@ def run(ctx, rep):
                 ty = short_ty(s.lhs.proj[-1][5])
                 if (f == "qos" or (f.startswith("default_") and f.endswith("_qos"))) and ty in cons:
                     events.append((bb, s.line, ty, fc.rv_expr(s), "store into ." + f))
+        # a QoS field overwritten through mem::replace / mem::swap is a store as well
+        for bb, t in m.calls():
+            if t.callee.indirect or t.callee.method() not in ("replace", "swap") or "mem" not in (t.callee.best_name() or "") or not t.args:
+                continue
+            a0 = E.strip_casts(fc.arg(t, 0))
+            if a0[0] in ("param", "local", "call") and (a0[2] if a0[0] != "call" else a0[4]):
+                f = (a0[2] if a0[0] != "call" else a0[4])[-1]
+                ty = None
+                pl = t.args[0].place
+                # the type of the replaced field: look at the referenced place's last field projection through the defining ref
+                cur = pl
+                for _ in range(5):
+                    if cur is None:
+                        break
+                    if cur.proj and cur.proj[-1][0] == "field":
+                        ty = short_ty(cur.proj[-1][5])
+                        break
+                    ds = [d for d in m.whole_defs(cur.local) if d[0] == "s" and d[3].rv is not None and d[3].rv.place is not None]
+                    cur = ds[0][3].rv.place if len(ds) == 1 else None
+                if (f == "qos" or (f.startswith("default_") and f.endswith("_qos"))) and ty in cons:
+                    events.append((bb, t.line, ty, fc.arg(t, 1) if len(t.args) > 1 else ("rv", "?"), "store into .%s (mem::%s)" % (f, t.callee.method())))
         if nm.startswith("create_"):
             for bb, t in m.calls():
                 if t.callee.indirect or t.callee.method() != "new":
@@ -130,3 +151,28 @@ def run(ctx, rep):
             rep.add("R37e", b.sname, "immutable policies of %s are all compared" % ty, want <= got,
                     "not compared: %s" % sorted(want - got), b.loc())
     rep.floor("R37e", k, 3, "check_immutability functions")
+    # R37f: the consistency relations DDS 1.4 states unconditionally (2.2.3: RESOURCE_LIMITS max_samples >= max_samples_per_instance;
+    # DEADLINE period >= TIME_BASED_FILTER minimum_separation) are tested on every path to a success exit of is_consistent —
+    # an early `return Ok(())` in a match arm must not skip them. (The HISTORY depth test applies to KEEP_LAST only.)
+    REQUIRED = {"DataReaderQos": [("period", "minimum_separation"), ("max_samples", "max_samples_per_instance")],
+                "DataWriterQos": [("max_samples", "max_samples_per_instance")],
+                "TopicQos": [("max_samples", "max_samples_per_instance")]}
+    kf = 0
+    for b in fx.bodies.values():
+        if b.kind != "AssocFn" or b.item_name != "is_consistent" or short_ty(b.impl_self or "") not in REQUIRED:
+            continue
+        fc = FnCtx(b)
+        m = fc.mir
+        oks = [bb for bb, i, s in fc.aggregates("Result", "Ok")]
+        for f1, f2 in REQUIRED[short_ty(b.impl_self)]:
+            tests = []
+            for sb, ce in fc.ces.items():
+                c = cmp_norm(E.strip_casts(ce.expr))
+                if c and ((E.mentions_field(c[1], f1) and E.mentions_field(c[2], f2)) or (E.mentions_field(c[1], f2) and E.mentions_field(c[2], f1))):
+                    tests.append(sb)
+            kf += 1
+            ok = bool(tests) and bool(oks) and all(any(m.dominates(t, o) for t in tests) for o in oks)
+            rep.add("R37f", b.sname, "%s vs %s is tested on every path to Ok(())" % (f1, f2), ok,
+                    "a success exit (line %s) is reachable without the %s / %s consistency test: an inconsistent %s is accepted by create_*, set_qos and set_default_*_qos"
+                    % ([m.blocks[o].term.line for o in oks if not any(m.dominates(t, o) for t in tests)][:2], f1, f2, short_ty(b.impl_self)), b.loc())
+    rep.floor("R37f", kf, 4, "unconditional consistency relations")
